@@ -136,6 +136,107 @@ func (w *World) mustSink(fn *ssa.Function, v ssa.Value, from ssa.Instruction, sp
 			}
 		}
 	}
+	// the value travels on inside another value: stored into a fresh list literal,
+	// appended to a list, merged at a join, or handed back by a helper that returns
+	// its argument. The step counts as handing over when the carrier, from there
+	// on, is itself handed over on every successful path.
+	phiEdgeSunk := map[[2]*ssa.BasicBlock]bool{}
+	if depth <= 3 {
+		if w.sinkCarrier == nil {
+			w.sinkCarrier = map[ssa.Value]bool{}
+		}
+		carried := func(carrier ssa.Value, at ssa.Instruction) bool {
+			if w.sinkCarrier[carrier] {
+				return false // a cycle of carriers (a loop-carried list) proves nothing
+			}
+			w.sinkCarrier[carrier] = true
+			defer delete(w.sinkCarrier, carrier)
+			sub := w.mustSink(fn, carrier, at, spec, depth+1)
+			if sub.ok {
+				res.funcParams = appendUniqueAll(res.funcParams, sub.funcParams)
+			}
+			return sub.ok
+		}
+		// a carrier built before `from` already holds the value there: it is the
+		// carrier that has to be handed over from `from` on
+		held := false
+		hold := func(carrier ssa.Value, made ssa.Instruction) bool {
+			if from != nil && made.Block() != nil && instrDominates(made, from) && carried(carrier, from) {
+				held = true
+			}
+			return held
+		}
+		for _, u := range uses {
+			if held {
+				break
+			}
+			switch x := u.ref.(type) {
+			case *ssa.Store:
+				// `[]*T{v}`: the element of a fresh array that is sliced as a whole
+				if stripConv(x.Val) != u.val {
+					continue
+				}
+				ia, ok := x.Addr.(*ssa.IndexAddr)
+				if !ok {
+					continue
+				}
+				arr, ok := ia.X.(*ssa.Alloc)
+				if !ok || arr.Referrers() == nil {
+					continue
+				}
+				var sl *ssa.Slice
+				clean := true
+				for _, r2 := range *arr.Referrers() {
+					switch y := r2.(type) {
+					case *ssa.IndexAddr:
+					case *ssa.Slice:
+						if sl != nil || y.Low != nil || y.High != nil {
+							clean = false
+						}
+						sl = y
+					default:
+						clean = false
+					}
+				}
+				if clean && sl != nil && sl.Block() == x.Block() && instrDominates(x, sl) {
+					if hold(sl, sl) {
+						continue
+					}
+					if carried(sl, sl) {
+						consumes[x] = true
+					}
+				}
+			case *ssa.Call:
+				cc := x.Common()
+				if b, isB := cc.Value.(*ssa.Builtin); isB && b.Name() == "append" {
+					if len(argIndexOf(cc, u.val)) > 0 && carried(x, x) {
+						consumes[x] = true
+					}
+					continue
+				}
+				// a helper that hands its argument back (`s.frozenUntil(h)` returns s)
+				if cal := cc.StaticCallee(); cal != nil && w.InModule(cal) && cal.Blocks != nil && !consumes[x] {
+					for _, ai := range argIndexOf(cc, u.val) {
+						if returnsParam(cal, ai) && carried(x, x) {
+							consumes[x] = true
+						}
+					}
+				}
+			case *ssa.Phi:
+				if !carried(x, x) {
+					continue
+				}
+				for i, e := range x.Edges {
+					if stripConv(e) == u.val && i < len(x.Block().Preds) {
+						phiEdgeSunk[[2]*ssa.BasicBlock{x.Block().Preds[i], x.Block()}] = true
+					}
+				}
+			}
+		}
+		if held {
+			return res
+		}
+	}
 	// elements of a slice value
 	type elemLoop struct {
 		elem ssa.Value
@@ -207,7 +308,7 @@ func (w *World) mustSink(fn *ssa.Function, v ssa.Value, from ssa.Instruction, sp
 	if len(loops) > 0 && len(consumes) == 0 {
 		return res // a list is sunk through its elements
 	}
-	if len(consumes) == 0 {
+	if len(consumes) == 0 && len(phiEdgeSunk) == 0 {
 		return &sinkResult{ok: false, why: "the value is never handed to the destination in " + w.FName(fn)}
 	}
 	start := ipos{fn.Blocks[0], 0}
@@ -217,6 +318,9 @@ func (w *World) mustSink(fn *ssa.Function, v ssa.Value, from ssa.Instruction, sp
 	}
 	// the value may be nil-tested: edges on which it is nil carry nothing
 	edgeOK := func(a, b *ssa.BasicBlock) bool {
+		if phiEdgeSunk[[2]*ssa.BasicBlock{a, b}] {
+			return false // the value goes on inside the merged value, which is handed over
+		}
 		ifi, ok := lastInstr(a).(*ssa.If)
 		if !ok {
 			return true
@@ -260,6 +364,26 @@ func (w *World) mustSink(fn *ssa.Function, v ssa.Value, from ssa.Instruction, sp
 		return &sinkResult{ok: false, why: fmt.Sprintf("%s can return successfully at %s without handing the value over", w.FName(fn), w.InstrPos(ret))}
 	}
 	return res
+}
+
+// returnsParam: every return of the single-result function cal hands back its
+// parameter #idx unchanged.
+func returnsParam(cal *ssa.Function, idx int) bool {
+	if cal.Signature.Results().Len() != 1 || idx >= len(cal.Params) {
+		return false
+	}
+	n := 0
+	for _, b := range cal.Blocks {
+		rt, ok := lastInstr(b).(*ssa.Return)
+		if !ok || b == cal.Recover {
+			continue
+		}
+		if stripConv(retResult(rt, 0)) != ssa.Value(cal.Params[idx]) {
+			return false
+		}
+		n++
+	}
+	return n > 0
 }
 
 // sinkOnPaths: on every successful path of fn that passes `from` (the entry when
